@@ -153,6 +153,11 @@ ReplyR(i, k, bef) ==
 -----------------------------------------------------------------------------
 (* composed actions of the closed model (PingMC) *)
 
+\* Session.Close (session.go: closed = true; close(closeChan); close(C); Conn.Close(); sleep) never touches the waiter table, which is
+\* a package-level variable shared by all sessions of the process: closing the session a pending ping was started on, or any other
+\* session, changes nothing for the ping -- it still completes on its own reply (Parse of any session feeds the one table) or times out.
+CloseSessionM == UNCHANGED mech
+CloseSession  == CloseSessionM /\ UNCHANGED ref
 Start(p, f)   == StartM(p, f) /\ StartR(p, f)
 Register(p)   == RegisterM(p) /\ IdentR(p, nextID)
 Send(p)       == SendM(p) /\ UNCHANGED ref
